@@ -176,14 +176,16 @@ def sample_cfg(name: str, rng, tier: str = "quick", small: bool = True) -> dict:
         lo = rng.randint(1, 3)
         cfg["gen"] = {"num_jobs": j, "num_machines": m, "min_ops_per_job": lo,
                       "max_ops_per_job": lo + rng.randint(0, 2),
-                      "max_processing_time": rng.choice([5, 20]),
+                      # 4000: long horizons (fine time units) - completion times beyond the 9999 used as
+                      # "not scheduled yet" finish time
+                      "max_processing_time": rng.choice([5, 20, 20, 4000]),
                       "same_mean_per_op": rng.random() < 0.5}
         cfg["kw"] = {"mask_no_ops": rng.random() < 0.5}
     elif name == "jssp":
         j, m = (rng.randint(2, 4), rng.randint(2, 3)) if not big else (rng.randint(5, 8), rng.randint(3, 5))
         one2one = rng.random() < 0.5
         cfg["gen"] = {"num_jobs": j, "num_machines": m, "one2one_ma_map": one2one,
-                      "max_processing_time": rng.choice([5, 20, 99])}
+                      "max_processing_time": rng.choice([5, 20, 99, 4000])}
         if not one2one:
             lo = rng.randint(1, 3)
             cfg["gen"]["min_ops_per_job"] = lo
